@@ -1,5 +1,6 @@
 import Bandit.Plugins.Misc
 import Bandit.Proofs.C01
+import Bandit.Proofs.Names2
 import Bandit.Gen.Regexes
 import Bandit.Gen.Defaults
 /-!
@@ -74,6 +75,60 @@ theorem candidate_examples :
     (["passwords", "mypassword", "tokens", "secretary", "passw", "pw", "key", "pass word", "xpwd", "tokenize", "pa_ssword",
       "passwordx", "_passwor"].any (fun s => isCandidate s.toList)) = false := by
   decide +kernel
+
+/-- **The matcher is the pattern.**  For every string: the model's `RE_CANDIDATES.search` succeeds iff the
+case-folded string splits as `pre ++ w ++ post` with `w` in the language of
+`pas+wo?r?d|pass(phrase)?|pwd|token|secrete?` (`Spec.PwWord`), `pre` empty or ending in `_`, and `post` empty,
+a lone final newline, or starting with `_` — the four alternatives `^W$ | _W_ | ^W_ | _W$`.
+(Declarative side: `Bandit/Spec/Names.lean`; helper lemmas: `Bandit/Proofs/Names2.lean`.) -/
+theorem candidate_is_pattern (s : Str) : isCandidate s = true ↔ Spec.CandidateSpec (s.map foldCase) :=
+  isCandidate_iff_spec s
+
+/-- the tokeniser behind it: the remainders the matcher considers after a word are exactly the
+decompositions `s = w ++ r` with `w` a word of the language -/
+theorem word_rests_are_language (s r : Str) : r ∈ wordRests s ↔ ∃ w, Spec.PwWord w ∧ s = w ++ r :=
+  mem_wordRests
+
+/-- … and the positions it tries are all suffixes -/
+theorem suffixes_are_suffixes (s t : Str) : t ∈ suffixes s ↔ ∃ pre, s = pre ++ t :=
+  mem_suffixes
+
+/-- **Words are found.**  A string whose case-folded form is a word of the language — alone, or
+delimited by `_` (or the string boundary) on either side — is a candidate. -/
+theorem candidate_of_word (s pre w post : Str) (hs : s.map foldCase = pre ++ w ++ post) (hw : Spec.PwWord w)
+    (hpre : pre = [] ∨ ∃ p, pre = p ++ ['_']) (hpost : post = [] ∨ ∃ q, post = '_' :: q) :
+    isCandidate s = true := by
+  rw [candidate_is_pattern, hs]
+  refine ⟨pre, w, post, rfl, hw, ?_, ?_⟩
+  · rcases hpre with h | ⟨p, rfl⟩
+    · exact Or.inl h
+    · exact Or.inr (by simp)
+  · rcases hpost with h | ⟨q, rfl⟩
+    · exact Or.inl h
+    · exact Or.inr (Or.inr rfl)
+
+/-- … in particular each documented spelling, in any letter case -/
+theorem documented_words_are_candidates (s pre post : Str) (w : String)
+    (hw : w ∈ ["password", "passwd", "pasword", "pass", "passphrase", "pwd", "token", "secret", "secrete"])
+    (hs : s.map foldCase = pre ++ w.toList ++ post)
+    (hpre : pre = [] ∨ ∃ p, pre = p ++ ['_']) (hpost : post = [] ∨ ∃ q, post = '_' :: q) :
+    isCandidate s = true :=
+  candidate_of_word s pre w.toList post hs (documented_words_in_language w hw) hpre hpost
+
+/-- **No stem, no candidate.**  A string whose case-folded form contains none of the letter sequences
+`pas`, `pwd`, `token`, `secret` is not a candidate. -/
+theorem not_candidate_without_stem (s : Str)
+    (h : ∀ x ∈ ["pas", "pwd", "token", "secret"], ¬ x.toList <:+: s.map foldCase) :
+    isCandidate s = false := by
+  cases hc : isCandidate s with
+  | false => rfl
+  | true =>
+    exfalso
+    rcases CandidateSpec_has_stem ((candidate_is_pattern s).mp hc) with h' | h' | h' | h'
+    · exact h "pas" (by simp) h'
+    · exact h "pwd" (by simp) h'
+    · exact h "token" (by simp) h'
+    · exact h "secret" (by simp) h'
 
 /-! ## B104, B108, docstrings -/
 
